@@ -412,6 +412,17 @@ def binary_xor(x, y, n_word=None):
     z = xm ^ ym
     return z
 
+def shift_raw(raw, shift, modular=False):
+    """
+    Raw value(s) scaled by 2**shift. A product that does not fit a 64-bit signed integer is computed
+    with Python integers (object dtype) instead of wrapping silently in int64, unless `modular` says
+    that it is going to be reduced modulo a power of two anyway (wrap overflow).
+    """
+    if shift > 0 and not modular and isinstance(raw, (np.ndarray, np.generic)) and raw.dtype.kind in 'iu' and raw.size > 0:
+        if max(abs(int(raw.max())), abs(int(raw.min()))) << shift >= 2**63:
+            return np.array(np.asarray(raw).astype(object) * 2**shift, dtype=object)
+    return raw * 2**shift
+
 @np.vectorize
 def clip(x, val_min, val_max):
     x_clipped = np.array(max(val_min, min(val_max, x)))
